@@ -13,6 +13,12 @@ LEVEL_TEXT = ("Static analysis of /repo's current source (go/packages + go/ssa, 
 
 # id -> (technique, what is decided, design_ref)
 CLAIMED = {
+    "C01": ("taint (payload), per-call/per-iteration path counting of forwards, drop-edge classification against a frozen table, FIFO shape + call-graph single consumer, provenance/dominance of delivered and pushed chunks, channel discipline of wake-up and receive queues, no-goroutine rule on the datagram path, plus the NAT rules of C02/C03",
+            "copy-on-write; at most one forward per datagram per hop; loss only on enumerated edges; FIFO + single consumer; demultiplexing by destination; NAT result is what is forwarded; wake-up token and send-after-close discipline; synchronous hand-over; NAT mapping/filtering rules",
+            "DESIGN.md section 3 C01"),
+    "C13": ("dominance (not-present edge, subnet test, ownership test), edge-cut reachability for the two bind branches, lockset with caller-holds inference (allocator under router mutex, binders hold the host mutex exclusively), predicate agreement insert/find, must-pass of the release",
+            "auto address only when absent from the NIC table; registration only inside the subnet; bind only for owned addresses after ephemeral search 5000-5999 or negative conflict lookup, atomically; conflict and match predicates agree; Close releases the own address once; delivery to the covering socket",
+            "DESIGN.md section 3 C13"),
     "C02": ("enum switch tables (exhaustive, value classes), key-shape agreement of all table operations followed through helpers, effects + call-graph reachability for the expiry, dominance (not-expired edge, free-probe edge), affine port-range check, mirror rule for the 1:1 helpers",
             "mapping key classes per behaviour; table keys agree and are separated; both tables updated together; expiry written only on outbound paths and always on reuse; mappings handed out only when not expired; external port in range and free; 1:1 pairing with port preserved",
             "DESIGN.md section 3 C02"),
